@@ -830,7 +830,11 @@ fn caps_for(d: &Delivery, n: usize) -> Option<Vec<usize>> {
                 v.push(x - last);
                 last = x;
             }
-            v.push(n - last);
+            // the tail is handed over in one piece only if it can sit in the socket buffer at once
+            // (the scripted recv waits until a whole segment is available)
+            if n - last <= 60_000 {
+                v.push(n - last);
+            }
             Some(v)
         }
     }
@@ -930,7 +934,15 @@ pub fn c06_case(dir: &Path, word: &[Req], delivery: &Delivery) -> Result<String,
     })();
     iohook::recv_set_script(vec![], usize::MAX);
     // store contents through the handle
-    let keys: Vec<Vec<u8>> = vec![b"a".to_vec(), b"b".to_vec(), b"c".to_vec(), "é".as_bytes().to_vec(), b"h".to_vec()];
+    let mut keys: Vec<Vec<u8>> = vec![b"a".to_vec(), b"b".to_vec(), b"c".to_vec(), "é".as_bytes().to_vec(), b"h".to_vec()];
+    for r in word {
+        match r {
+            Req::Set(k, _) | Req::Get(k) => keys.push(k.clone()),
+            Req::Del(ks) => keys.extend(ks.iter().cloned()),
+        }
+    }
+    keys.sort();
+    keys.dedup();
     let contents = srv.store_contents(&keys);
     let stopped = srv.stop();
     let r = res?;
@@ -1024,6 +1036,69 @@ fn c06(job: &Job, sh: &mut Shard, t0: Instant) {
             for a in 1..n {
                 for b2 in (a + 1)..n {
                     cases.push((w.clone(), Delivery::Cuts(vec![a, b2])));
+                }
+            }
+        }
+    }
+    // STRUCTURED words (sizes and counts the exhaustive words do not reach), delivered whole and in
+    // lock-step: values that look like RESP frames; DEL of 9 .. 1000 keys (multi-digit counts, with
+    // misses and repeats); values whose reply header / trailer straddles the 8 KiB and 16 KiB marks;
+    // long keys; thousands of requests on one connection
+    {
+        let mut sw: Vec<Vec<Req>> = vec![];
+        let a = || b"a".to_vec();
+        let b_ = || b"b".to_vec();
+        for v in [&b"$5\r\nhello\r\n"[..], b"-ERR x", b"+OK", b":1", b"*2\r\n$1\r\na\r\n$1\r\nb\r\n", b"$-1", b"\r\n\r\n", b"$", b"-", b"nil", b"0", b"-1", b"\xff\xfe", b"*3\r\n$3\r\nSET\r\n$1\r\na\r\n$1\r\nz\r\n"] {
+            sw.push(vec![Req::Set(a(), v.to_vec()), Req::Get(a()), Req::Set(b_(), v.to_vec()), Req::Del(vec![a()]), Req::Get(a()), Req::Get(b_())]);
+        }
+        let ns: Vec<usize> = if job.tier == Tier::Quick { vec![9, 10, 11, 100, 300] } else { vec![8, 9, 10, 11, 12, 99, 100, 101, 255, 256, 999, 1000, 1001] };
+        for n in ns {
+            let kk = |i: usize| format!("k{:04}", i).into_bytes();
+            let mut w: Vec<Req> = (0..n).map(|i| Req::Set(kk(i), format!("{}", i).into_bytes())).collect();
+            let mut dk: Vec<Vec<u8>> = (0..n).map(kk).collect();
+            w.push(Req::Get(kk(n - 1)));
+            w.push(Req::Del(dk.clone()));
+            dk.push(b"absent".to_vec());
+            dk.push(kk(0));
+            w.push(Req::Del(dk.clone()));
+            w.push(Req::Get(kk(0)));
+            // set them again and delete with every key named twice
+            w.extend((0..n).map(|i| Req::Set(kk(i), b"2".to_vec())));
+            let twice: Vec<Vec<u8>> = (0..n).flat_map(|i| [kk(i), kk(i)]).collect();
+            w.push(Req::Del(twice));
+            sw.push(w);
+        }
+        let ls: Vec<usize> = if job.tier == Tier::Quick { (8176..8196).step_by(1).collect() } else { (8160..8210).chain(16_360..16_400).chain(65_520..65_545).collect() };
+        for l in ls {
+            sw.push(vec![Req::Set(a(), vec![b'q'; l]), Req::Get(a()), Req::Get(a()), Req::Set(b_(), b"x".to_vec()), Req::Get(b_()), Req::Get(a())]);
+        }
+        for kl in [255usize, 256, 300, 8191, 8192, 8193, 70_000] {
+            let k = vec![b'K'; kl];
+            sw.push(vec![Req::Set(k.clone(), b"v".to_vec()), Req::Get(k.clone()), Req::Del(vec![k.clone(), k.clone()]), Req::Get(k.clone())]);
+        }
+        for n in [if job.tier == Tier::Quick { 1500usize } else { 20_000 }] {
+            let mut w = vec![];
+            for i in 0..n {
+                w.push(Req::Set(a(), format!("{}", i).into_bytes()));
+                if i % 3 == 0 {
+                    w.push(Req::Get(a()));
+                }
+                if i % 7 == 0 {
+                    w.push(Req::Del(vec![a(), b_()]));
+                }
+            }
+            sw.push(w);
+        }
+        for w in sw {
+            cases.push((w.clone(), Delivery::Whole));
+            let n: usize = w.iter().map(|r| r.encode().len()).sum();
+            if w.len() <= 700 {
+                cases.push((w.clone(), Delivery::LockStep));
+            }
+            // cuts at the buffer marks
+            for c in [8191usize, 8192, 8193, 16_384] {
+                if c < n {
+                    cases.push((w.clone(), Delivery::Cuts(vec![c])));
                 }
             }
         }
